@@ -414,6 +414,21 @@ func jlStream(seed uint64, tier string, outDir string, props map[string]bool, fo
 	flush()
 	jlDescriptorSweep(bin, mkdir, rep, violate, tier)
 	jlInteractive(bin, mkdir, rep, props)
+	// a sub-row whose columns are literally named "input" and "output": row.yml and the inline form must agree
+	{
+		yml := "columns:\n  - name: \"r\"\n    input: \"auto\"\n    output: \"auto\"\n    columns:\n      - name: \"input\"\n        input: \"string\"\n        output: \"string\"\n      - name: \"output\"\n        input: \"numeric\"\n        output: \"numeric\"\n  - name: \"name\"\n    input: \"string\"\n    output: \"string\"\n"
+		inline := `{"r":{"input":"string","output":"numeric"},"name":"string"}`
+		stdin := `{"r":{"output":"7","input":5},"name":1}` + "\n" + `{"name":"x"}` + "\n" + `{"r":{"input":"a","output":"zz"}}` + "\n"
+		dy := mkdir("io")
+		os.WriteFile(filepath.Join(dy, "row.yml"), []byte(yml), 0o644)
+		ry := runJl(bin, dy, nil, stdin)
+		ri := runJl(bin, mkdir("ii"), []string{"-t", inline}, stdin)
+		rep.OracleChecks["C19"]++
+		if ry.exit != ri.exit || !bytes.Equal(ry.stdout, ri.stdout) {
+			violate(fmt.Sprintf("jl: a sub-row with columns named input / output: row.yml gives exit %d, %q; the inline template gives exit %d, %q", ry.exit, ry.stdout, ri.exit, ri.stdout),
+				map[string]interface{}{"stream": "jl", "row.yml": yml, "inline": inline, "stdin": stdin})
+		}
+	}
 	return rep
 }
 
